@@ -87,6 +87,17 @@ Theorem C16_dhcp_renewal_keeps_circuit : forall c s mac relayed l,
 Proof. exact d_renewal_keeps_circuit. Qed.
 Print Assumptions C16_dhcp_renewal_keeps_circuit.
 
+(* a REQUEST of the owner for its address is a renewal whatever the age of the lease — also in the window
+   between its expiry and the reaper's next pass: no second Accounting-Start, the accounting session stays
+   (so the one Stop of whatever ends the session later closes the one Start) *)
+Theorem C16_dhcp_late_renewal_same_session : forall c s mac cid relayed l,
+  aget mac (leases s) = Some l ->
+  snd (fst (dstep c s (Request mac (l_ip l) cid relayed))) = (2, l_ip l, []) /\
+  starts (fst (fst (dstep c s (Request mac (l_ip l) cid relayed)))) = starts s /\
+  exists l', aget mac (leases (fst (fst (dstep c s (Request mac (l_ip l) cid relayed))))) = Some l' /\ l_sid l' = l_sid l.
+Proof. exact d_renewal_no_new_session. Qed.
+Print Assumptions C16_dhcp_late_renewal_same_session.
+
 (* ... and a renewal from ANOTHER circuit takes the old circuit's bindings away at once (index entry and
    both kernel entries; after fix c878197), so none is left under a circuit-id the lease no longer records.
    Guard: the circuit-ID index still points at this client's lease (it does unless another MAC took the
